@@ -42,4 +42,8 @@ Definition unsafe_wsites (sites : list wsite) (entry : list string) : list (stri
 (* the pass-through functions without a caller in the module, as reviewed: the template executor returned by
    Client.GetDBExec of writer/ch_wrapper is handed to plugins; nothing in the module calls it *)
 Definition reviewed_writer_entry : list string :=
-  ["parameter query (#1) of closure in writer/ch_wrapper.(*Client).GetDBExec"].
+  [ (* round 4 (sinks by declaring package): the connection string handed to clickhouse.ParseDSN; both constructors are called by the
+       tests only, with the configured DSN *)
+    "parameter Xdsn (#0) of writer/ch_wrapper.NewSmartDatabaseAdapterWithXDSN";
+    "parameter dsn (#0) of writer/ch_wrapper.NewSmartDatabaseAdapterWithDSN";
+    "parameter query (#1) of closure in writer/ch_wrapper.(*Client).GetDBExec"].
